@@ -102,6 +102,22 @@ FamD(tmpls, datas) ==
                   [Unset EXCEPT !["iA2"] = ri, !["e1"] = rq, !["e2"] = rq], X, {},
                   ts \o "." \o ds \o "." \o ReqCode(ri) \o ReqCode(rq)))
 
+\* L: look-alikes -- for a typed key, a conforming value at one level and, at ANOTHER level, a value that differs
+\*    from it in JSON type only (true vs "true", 1 vs "1"), optionally with a second conforming value at a third
+\*    level (a sibling entry / interface of the same file, or a level above).  Closed schema, nothing required, so
+\*    the type is the only thing that can be wrong.
+\*    pair = <<key, conforming kind, violating look-alike kind>>
+LookPairs(t) == {<<"kb", "bool", "strT">>, <<"ks", "strT", "bool">>, <<"ks", "str1", "int">>}
+                \cup (IF t \in {"testify", "matryer"} THEN {} ELSE {<<"ki", "int", "str1">>})
+PairCode(pr) == pr[1] \o "-" \o pr[2] \o "-" \o pr[3]
+FamL(tmpls) ==
+  \E t \in tmpls : \E pr \in LookPairs(t), lc \in Levels, lv \in Levels, l3 \in Levels \cup {"-"} :
+    /\ lc # lv /\ l3 \notin {lc, lv}
+    /\ InitWith([Case("L", t, Loc("CL", "absent", "absent"), Unset, Unset, {}, {},
+                      PairCode(pr) \o "." \o LevCode(lc) \o LevCode(lv) \o (IF l3 = "-" THEN "-" ELSE LevCode(l3)))
+                 EXCEPT !.data = DataOf({<<lc, pr[1], pr[2]>>, <<lv, pr[1], pr[3]>>}
+                                        \cup (IF l3 = "-" THEN {} ELSE {<<l3, pr[1], pr[2]>>}))])
+
 \* E: an output file exists already (force-file-write: true): a rejected file keeps its old bytes
 FamE(tmpls) ==
   \E t \in tmpls, X \in {{KsRoot}, {KsRoot, <<"iA1", "zz", "str">>}, {KsRoot, <<"e2", "kb", "str">>}, {<<"root", "zz", "str">>}, {}},
@@ -116,6 +132,7 @@ InitQuick ==
   \/ FamB({"http"}, {"RC", "absent", "garbage"}, {"absent", "CL"}, Reqs, {"unset"}, Reqs, DataB)
   \/ FamC({"file", "http"}, DataC)
   \/ FamD({"file"}, DataB)
+  \/ FamL({"testify", "matryer", "file"})
   \/ FamE({"testify", "file"})
 
 InitThorough ==
@@ -123,6 +140,7 @@ InitThorough ==
   \/ FamB({"file", "http"}, AllStates, {"absent", "RC", "OP", "CL", "garbage"}, Reqs, Reqs, Reqs, DataB)
   \/ FamC({"file", "http"}, DataC)
   \/ FamD({"file", "http"}, DataB)
+  \/ FamL({"testify", "matryer", "file", "http"})
   \/ FamE({"testify", "matryer", "file", "http"})
 
 \* the schema tables, for the harness (which writes the custom schemas and compares the built-in ones with the tree)
